@@ -31,7 +31,7 @@ def CLASSIFY(c, real, msg):
 
 
 def streams(ctx):
-    n = 8 if ctx.thorough else 1
+    n = 16 if ctx.thorough else 1
     return [("tagged", "tagged", 700 * n), ("tagged-2hap", "tagged2", 200 * n), ("homologous-groups", "twohap", 200 * n), ("tagged-slivers", "slivers", 150 * n), ("unloc-rich", "unlocs", 300 * n), ("homologues-share-name-tag", "homtag", 120 * n), ("untagged", "script", 150 * n)]
 
 
